@@ -165,6 +165,7 @@ const (
 	UNewlineInIstr            = "newline-in-interpreted-string"
 	UInvalidEscape            = "invalid-escape"
 	UDigitLetter              = "digit-glued-to-letter"
+	UBomAtStart               = "byte-order-mark-at-file-start"
 )
 
 // Result of lexing one input.
@@ -450,6 +451,10 @@ func (s *scanner) next() {
 			s.advance(size)
 			s.emit(Unknown, start, row, col, src[start:s.i], "")
 			return
+		}
+		if r == 0xFEFF && start == 0 {
+			// a byte order mark as the very first character: Go's scanner skips it, the property is silent
+			s.unspec(UBomAtStart)
 		}
 		s.fail("unknown-char", start, row, col, "nonascii-symbol")
 		return
